@@ -39,6 +39,11 @@ CHECKS = {
     note="Trusted: TLC, Ufunc.tla (Reduce/Accumulate), drv_reduce.cpp (scaling of real-valued results to exact integers with 1e-6 relative rounding tolerance).",
     technique="TLA+ reference semantics with a recording (non-associative) fold operation; TLC law checking; trace validation by TLC",
     design="5/C08"),
+ "C15": dict(
+    text="The reference semantics carries an explicit ok flag defined by 'NumPy raises' (model-checked in MC_Views/MC_Broadcast: reshape rejection law, broadcast criterion); the complete case tables of C03/C06/C07 plus argument grids around the validity boundary (shape entries -2..4, axes in [-dim-2, dim+1], operand mismatches, malformed pad/repeat/resize arguments) are executed in forked children and TraceOps.tla decides every event whose arguments the reference rejects: the library must return an empty optional, a value or a crash event (signal, abort, exception) is a violation.",
+    note="Trusted: TLC, the ok fields of Views/Select/Broadcast/Ufunc, the fork isolation of harness/include/verif/driver.hpp. Drivers are built with assertions enabled, so an assertion abort is a crash event. Three input classes (unvalidated axes, join shape mismatch, repeat length) are known findings.",
+    technique="TLA+ reference semantics with explicit validity; TLC-generated invalid halves replayed under fork isolation; trace validation by TLC",
+    design="5/C15"),
 }
 
 NOT_APPLICABLE = {}
